@@ -39,6 +39,7 @@ type Report struct {
 	Known      []string
 	Wall       float64
 	Bounded    []map[string]any
+	StructFails []StructOb
 }
 
 type Violation struct {
@@ -183,7 +184,9 @@ func cmdCheck(args []string) int {
 }
 
 // extraChecks are per-property obligation generators beyond function contracts (frames, enumerations).
-var extraChecks = map[string][]func(*Loaded, *ContractDB, *Report){}
+var extraChecks = map[string][]func(*Loaded, *ContractDB, *Report){
+	"C12": {fileLoopObligations},
+}
 
 func runDeductive(L *Loaded, db *ContractDB, rep *Report) {
 	type job struct {
@@ -345,6 +348,9 @@ func finish(rep *Report, verif string, db *ContractDB, t0 time.Time) int {
 	}
 	for _, e := range rep.Errs {
 		fails = append(fails, failure{name: "engine:" + e, detail: e})
+	}
+	for _, o := range rep.StructFails {
+		fails = append(fails, failure{name: o.Name, detail: "structural obligation failed (" + o.Src + "): " + o.Detail})
 	}
 	nObs := len(rep.Obs) - covers
 	// zero obligations is vacuous success: refuse
